@@ -30,7 +30,7 @@ BIN=$(ls -t "$SH"/target/release/deps/penguin_mux-* 2>/dev/null | grep -v '\.d$'
 "$BIN" --list 2>/dev/null | grep -q verif_loom_task_drop_vs_locked_map || { echo "HARNESS ERROR: hook module verif_loom is not compiled in"; exit 2; }
 mkdir -p "$VERIF_DIR/replays" "$VERIF_DIR/evidence"
 test_of() {
-  case "$1" in *,w2,*) echo verif_loom_two_writers;; ids,*) echo verif_loom_flow_ids;; abort,*) echo verif_loom_abort_vs_request;; dropmap,*) echo verif_loom_task_drop_vs_locked_map;; *) echo verif_loom_writer_vs_task;; esac
+  case "$1" in frames,*) echo verif_loom_stream_vs_frames;; *,w2,*) echo verif_loom_two_writers;; ids,*) echo verif_loom_flow_ids;; abort,*) echo verif_loom_abort_vs_request;; dropmap,*) echo verif_loom_task_drop_vs_locked_map;; *) echo verif_loom_writer_vs_task;; esac
 }
 run_one() { # scenario iterations seed [schedule] -> prints output
   local T; T=$(test_of "$1")
@@ -71,6 +71,9 @@ if sys.argv[2] == "C07":
     sc += [f"ids,{a}p7,{x}" for a in ("o","b") for x in onep] + ["ids,op0,3","ids,bp0,0+3"]
     sc += [f"ids,{a}p7,{x}" for a in ("oo","ob","bb") for x in threep]
     sc += [f"ids,{a},{x}" for a in ("ooo","oob","obb") for x in three]
+    # k: a pending local request (made first, takes the first scripted id) is acknowledged by the
+    # peer on the task's thread while other threads draw the same id
+    sc += [f"ids,{a},{x}" for a in ("ko","kb","koo","kob","kop7","kbp9") for x in ("7+7+9","7+7","7+9","7+7+7+9","0+7+7")]
     random.Random(int(sys.argv[1])).shuffle(sc)
     print("\n".join(sc)); sys.exit(0)
 ops = ["a1","a2","c","a1+a1","a1+c","c+a1","a2+c","c+a2","a1+a2","a1+a1+c","a1+c+a1","c+a1+a1"]
@@ -79,7 +82,13 @@ sc += [f"{c},w2,{o}" for c in (0,1,2,3) for o in ("none","a1","a2","c","a1+c","c
 random.Random(int(sys.argv[1])).shuffle(sc)
 # the connection task dropped while another thread holds the flow map's lock
 # (o = inside new_stream_channel's insertion, b = inside request_bind's), a writer parked on the stream
-sc = ["dropmap,o", "dropmap,b"] + sc
+# a real stream (made by the task from the peer's Connect) used on one thread while another hands the
+# task the peer's frames for it: credit x writer ops (w = poll_write, s = poll_shutdown) x frames
+# (a<n> = Acknowledge, r = Reset, f = Finish, p = Push)
+fr = [f"frames,{c},{w},{f}" for c in (0,1,2) for w in ("w","ww","www","ws","wsw","sw")
+      for f in ("a1","a2","r","a1+r","r+a1","a1+a1","f","p+f","a1+f","p+a1+r")]
+random.Random(int(sys.argv[1]) + 1).shuffle(fr)
+sc = ["dropmap,o", "dropmap,b", "dropmap,m"] + sc + fr
 print("\n".join(sc))
 PY
 N=0; EXEC=0; DIST=0; STEPS=0; VIOL=0; SAMPLES=""
@@ -113,7 +122,7 @@ T1=$(date +%s.%N)
 python3 - "$SH/$ID-part.json" "$ID" "$N" "$EXEC" "$DIST" "$STEPS" "$VIOL" "$(echo "$T1 - $T0" | bc)" "[${SAMPLES%,}]" "$IT" "$SEED" <<'PY'
 import json,sys
 out,pid,n,ex,dist,steps,viol,wall,samples,it,seed=sys.argv[1:12]
-what={"C12":"the loom part's writer/credit scenarios (initial credit x writer polls x scripts of acknowledge/disallow_write; two writers racing) plus dropmap,o|b: a real Multiplexor/Task pair with an established stream whose writer is parked for credit, a second thread inside Multiplexor::insert_new_flow (holding the flow map's write lock) while the main thread drops the connection task; oracle for dropmap: once the task is gone the writer has been woken and its next poll says the stream is closed",
+what={"C12":"the loom part's writer/credit scenarios (initial credit x writer polls x scripts of acknowledge/disallow_write; two writers racing; a real stream's poll_write / poll_shutdown against the peer's frames in the task's frame handler) plus dropmap,o|b: a real Multiplexor/Task pair with an established stream whose writer is parked for credit, a second thread inside Multiplexor::insert_new_flow (holding the flow map's write lock) while the main thread drops the connection task; oracle for dropmap: once the task is gone the writer has been woken and its next poll says the stream is closed",
       "C07":"the loom part's flow-id scenarios (application threads in insert_new_flow against the connection task's Connect handling, id generator scripted to collide)",
       "C08":"the loom part's abort scenarios (the task's future dropped on one thread while another calls new_stream_channel / request_bind)"}[pid]
 json.dump({"engine":"shuttlesim","scenarios":int(n),"schedules":int(ex),"distinct_schedules":int(dist),"scheduling_decisions":int(steps),"iterations_per_scenario":int(it),"seed":int(seed),"violations":int(viol),"wall_s":float(wall),"samples":json.loads(samples),
